@@ -20,6 +20,12 @@ FINDINGS = [
          what="a definition whose docstring sits on the header line (def f(a, b): \"\"\"Summary.\"\"\") is rewritten into an unterminated triple-quoted string",
          site="cdd/shared/ast_cst_utils.py:maybe_replace_doc_str_in_function_or_class (assumes the docstring is its own CST node after the header)",
          example="def f(a, b): \"\"\"Summary of it.\"\"\""),
+    dict(id="C07-comment-between-header-and-docstring-docstring-duplicated", property="C07",
+         pattern=dict(check="doctrans", layout="comment_after_header", clause={"in": ["erased_ast_differs", "other_lines_differ"]}),
+         what="a comment line between a def/class header and its docstring: the docstring is looked for in the CST node right after the header, the comment is found there instead, so the converted "
+              "docstring is *inserted* above the comment and the old one stays behind as a string statement (a blank line in that place is handled)",
+         site="cdd/shared/ast_cst_utils.py:maybe_replace_doc_str_in_function_or_class (cst_list[cst_idx + 1] assumed to be the docstring)",
+         example="def f(a, b=5):\n    # note under the header\n    \"\"\"Summary of it. ...\"\"\"\n    return a   with any target style"),
 ]
 FIXED = [
     "fixed: property=C07 a43d289 a header whose string default contains '->' (def f(a, sep='->')) was cut at the string when annotations were added or removed; the result was not valid Python",
